@@ -211,7 +211,10 @@ def user_templates(rng, k):
         if "{" in t.replace("{{", ""):
             out.append(t)
     rng.shuffle(out)
-    return out[:k] + ["{severity}|{msg}"]
+    # format specifications and conversions on known tags (outside the modelled fragment: judged against Python's own str.format; found by
+    # tools/mutation — the `!` marker of the re-assembled template could be altered without any check noticing)
+    SPEC = ["{line:>6}|{severity!s:<8}|{test_id:^7}|{msg!r}", "{col:03d}:{line:x} {msg!a}", "{severity!r}{{{confidence:.3}}}", "{relpath!s:>40.40}|{range!s}"]
+    return out[:k] + ["{severity}|{msg}"] + ([rng.choice(SPEC)] if k < 5 else SPEC)
 
 
 # ----------------------------------------------------------------------------- running real bandit
@@ -558,6 +561,16 @@ def oracle_custom(tpl, issues):
     return out
 
 
+def oracle_custom_spec(tpl, issues):
+    """templates with conversions / format specifications on KNOWN tags: the meaning is Python's str.format"""
+    out = ""
+    for i in issues:
+        v = dict(abspath=i["abspath"], relpath=i["relpath"], line=i["lineno"], col=i["col"], end_col=i["end_col"], test_id=i["test_id"], severity=i["sev"], msg=i["text"],
+                 confidence=i["conf"], range=i["range"], cwe=("CWE-%d (%s)" % (i["cwe_id"], i["cwe_link"]) if i["cwe_id"] else ""))
+        out += tpl.format(**v) + "\n"
+    return out
+
+
 def check_combo(res, drv, sc, mgr, issues, skips, outdir, combo, sid):
     fmt, n, sev, conf, tpl = combo
     exp = [i for i in issues if rank_ok(i, sev, conf)]
@@ -582,8 +595,12 @@ def check_combo(res, drv, sc, mgr, issues, skips, outdir, combo, sid):
     # ---------------- custom with a user template: expansion only
     if fmt == "custom" and tpl != SIX_TEMPLATE:
         eff = tpl if tpl is not None else "{abspath}:{line}: {test_id}[bandit]: {severity}: {msg}"
-        want = oracle_custom(eff, exp)
+        spec = re.search(r"\{[a-z_]+[!:]", eff.replace("{{", "")) is not None
+        want = oracle_custom(eff, exp) if not spec else oracle_custom_spec(eff, exp)
         got = data.decode("utf-8") if data is not None else None
+        if spec:
+            res.count("custom-template-with-format-spec")
+            model_ok = False
         if got != want:
             viol("template expansion differs from the documented meaning of the template", template=tpl, want=want[:400], got=(got or err)[:400] if (got or err) else None)
         if model_ok:
